@@ -88,3 +88,94 @@ func verifIndexOf(bs []*Backend, b *Backend) int {
 	}
 	return -1
 }
+
+// ---------------------------------------------------------------- client connection model
+
+// verifRecorder is the client side of the connection as net/http's
+// ResponseWriter contract defines it: the first final WriteHeader wins and
+// freezes a snapshot of the header map (what goes on the wire), the first
+// Write or Flush implies WriteHeader(200), interim 1xx headers are forwarded.
+type verifRecorder struct {
+	hdr         http.Header
+	wroteHeader bool
+	status      int
+	wire        http.Header // header snapshot at WriteHeader time
+	bodyLen     int
+	writes      int
+	interim     int
+	flushes     int
+	hijacks     int
+	superfluous int
+}
+
+func verifNewRecorder() *verifRecorder { return &verifRecorder{hdr: http.Header{}} }
+
+func (r *verifRecorder) Header() http.Header { return r.hdr }
+
+func (r *verifRecorder) WriteHeader(code int) {
+	if code >= 100 && code < 200 && code != 101 {
+		r.interim++
+		return
+	}
+	if r.wroteHeader {
+		r.superfluous++
+		return
+	}
+	r.wroteHeader = true
+	r.status = code
+	r.wire = r.hdr.Clone()
+}
+
+func (r *verifRecorder) Write(b []byte) (int, error) {
+	if !r.wroteHeader {
+		r.WriteHeader(http.StatusOK)
+	}
+	r.bodyLen += len(b)
+	r.writes++
+	return len(b), nil
+}
+
+func (r *verifRecorder) Flush() {
+	if !r.wroteHeader {
+		r.WriteHeader(http.StatusOK)
+	}
+	r.flushes++
+}
+
+// finish is what the server does when the handler returns.
+func (r *verifRecorder) finish() {
+	if !r.wroteHeader {
+		r.WriteHeader(http.StatusOK)
+	}
+}
+
+// ---------------------------------------------------------------- backend / reverse-proxy model
+
+// verifFakeRT is the scripted backend. Natively it is the RoundTripper of a
+// REAL httputil.ReverseProxy; under the symbolic executor
+// (*httputil.ReverseProxy).ServeHTTP is redirected to verifStubProxy, which
+// reads the same script.
+type verifFakeRT struct {
+	name string
+}
+
+var verifProxyHits = map[string]int{}
+
+const (
+	verifOutStatus  = 0 // backend answers with a status and a small body
+	verifOutRefused = 1 // connection refused -> default error handler -> 502
+	verifOutAbort   = 2 // response aborted mid-body -> panic(http.ErrAbortHandler)
+)
+
+// verifNextOutcome reads the next scripted backend behaviour.
+func verifNextOutcome() (kind int, status int) {
+	kind = verifrt.Choice("backendOutcome", 3)
+	status = 200
+	if kind != verifOutRefused {
+		status = verifrt.IntRange("backendStatus", 200, 599)
+	}
+	return
+}
+
+// verifServerCtx marks a request as running under an http.Server (native replay only).
+var verifServerCtx = func(r *http.Request) *http.Request { return r }
